@@ -534,6 +534,9 @@ func c15Plan(r *Rng, n int, notify bool) []c15In {
 			c.poll = true
 		}
 		tail := r.Chance(1, 3) && c.name != "missing-at-start"
+		if c.name == "batcher" { // alternate, so that both branches of tailBatcher.go are taken in every run
+			tail = (i/len(classes))%2 == 0
+		}
 		ins = append(ins, g.mk(c.name, c.poll, c.reopen, tail, r.Range(4, 24)))
 	}
 	return ins
